@@ -103,6 +103,14 @@ BreakEndsReading == cfg.valid /\ cfg.take # -1 =>
 \* ... and the limited context rows are the first rows of the unlimited ones (&index, &index-in-file are those of the unlimited run)
 Indices == Exited /\ cfg.valid /\ cfg.mode = "ctx" /\ Unlimited /\ cfg.policy = "ignore" /\ cfg.rfault = NoRF /\ cfg.wfault = -1 =>
              out = CtxAll(Sources(cfg), 1, 0, cfg.onlyObj)
+\* ... and under --skip / --take the context rows are that slice of the unlimited run's rows: a skipped value still counts in &index / &index-in-file
+RowsOfLines(ls, i) == IF i > Len(ls) THEN <<>> ELSE ls[i] \o <<10>>
+RECURSIVE JoinLines(_, _)
+JoinLines(ls, i) == IF i > Len(ls) THEN <<>> ELSE ls[i] \o <<10>> \o JoinLines(ls, i + 1)
+RECURSIVE LinesOf(_, _, _)
+LinesOf(bytes, i, cur) == IF i > Len(bytes) THEN <<>> ELSE IF bytes[i] = 10 THEN <<cur>> \o LinesOf(bytes, i + 1, <<>>) ELSE LinesOf(bytes, i + 1, Append(cur, bytes[i]))
+IndicesLimited == Exited /\ cfg.valid /\ cfg.mode = "ctx" /\ cfg.policy = "ignore" /\ cfg.rfault = NoRF /\ cfg.wfault = -1 =>
+             out = JoinLines(Limited(LinesOf(CtxAll(Sources(cfg), 1, 0, cfg.onlyObj), 1, <<>>)), 1)
 \* ---- C18
 RejectBeforeIO == Exited /\ ~cfg.valid => result = "err" /\ opened = <<>> /\ out = <<>> /\ pulled = 0 /\ errOut = 0
 \* ---- C20
